@@ -7,7 +7,7 @@ the returned solution dictionary is compared with
   (i)  the property's own predicates evaluated independently (weighted-quantile rule written out in plain Python,
        greatest-weight sample, weighted mean, forward model re-evaluated on a second model at the MAP / median,
        derived values re-evaluated sample by sample);
-  (ii) the Lean model (`Posterior.quantileCorner / summary / argmaxFirst / wmean / storeOutput / scatter`).
+  (ii) the Lean model (`Posterior.quantileCorner / summary / argmaxFirst / wmean / storeOutput / restoreOrder`).
 """
 import io
 import math
@@ -31,7 +31,7 @@ ASSUMPTIONS = ['np.argsort modelled as a stable insertion sort: exact for distin
                'weights >= 0 with positive sum, finite samples (zero / negative / NaN totals: malformed stream)',
                'MultiNest / PolyChord "MAP" is the sampler-reported vector (pass-through only; file layouts written by the '
                'double in the form the wrappers parse; the real samplers\' layouts cannot be checked offline)',
-               'one process (multi-rank order restoration of derived traces is C18)',
+               'one process in the harness (the model theorem on the index-based order restoration covers every gather order; the multi-rank run is C18)',
                'rounding: 1e-9 relative to the value range of the trace']
 
 QS = [0.16, 0.5, 0.84]
@@ -186,14 +186,22 @@ def validate_externals(ctx):
         ctx.check_close('np.average vs Posterior.wmean', float(np.average(x, weights=wt)),
                         ctx.model().call('c09.wmean', C.L(x), C.L(wt)).flt(), dict(x=x, w=wt), rel=0,
                         abs_=1e-12 * float(np.max(np.abs(x))))
-        # fancy assignment a[dst] = a[src] as used by compute_derived_trace (single process: dst == src)
-        p = np.argsort(wt)
-        p2 = p if rng.random() < 0.7 else rng.permutation(n)
-        a = x.copy()
-        a[p] = a[p2]
-        ctx.check_eq('a[dst] = a[src] vs Posterior.scatter', a.tolist(),
-                     ctx.model().call('c09.scatter', C.L(p, C.N), C.L(p2, C.N), C.L(x)).list(), dict(dst=p, src=p2))
-        ctx.bucket('external:sort/accumulate/argmax/average/scatter')
+        # restore = index.argsort(); gathered[restore] as used by compute_derived_trace: identity order (one
+        # process), rank-block order (r, r+size, ... for each rank), or an arbitrary enumeration of the samples
+        r_ = rng.random()
+        if r_ < 0.34:
+            index = np.arange(n)
+        elif r_ < 0.67:
+            size = int(rng.integers(1, 6))
+            index = np.concatenate([np.arange(rk, n, size) for rk in range(size)]).astype(int)
+        else:
+            index = rng.permutation(n)
+        gathered = x[index]
+        ctx.check_eq('gathered[index.argsort()] vs Posterior.restoreOrder', gathered[index.argsort()].tolist(),
+                     ctx.model().call('c09.restore', C.L(index, C.N), C.L(gathered)).list(), dict(index=index))
+        if gathered[index.argsort()].tolist() != x.tolist():
+            ctx.violation('restore-order:numpy', 'gathered[index.argsort()] is not sample order', dict(index=index))
+        ctx.bucket('external:sort/accumulate/argmax/average/restore')
 
 
 # ------------------------------------------------------------------------------------------ quantile stream
@@ -447,10 +455,9 @@ def eval_fit(ctx, spec):
                 continue
             if float(np.max(np.abs(exp_tr))) > 0:
                 check_summary(ctx, where + ':derived', e, exp_tr, W, dict(sm, derived=dname, mode=j))
-            # the re-ordering step of compute_derived_trace, on the model: dst == src leaves the trace alone
-            pw = np.argsort(W)
-            ctx.check_eq('derived re-ordering vs Posterior.scatter', tr.tolist(),
-                         ctx.model().call('c09.scatter', C.L(pw, C.N), C.L(pw, C.N), C.L(exp_tr)).list()
+            # the re-ordering step of compute_derived_trace on the model (one process: index = 0 .. n-1)
+            ctx.check_eq('derived re-ordering vs Posterior.restoreOrder', tr.tolist(),
+                         ctx.model().call('c09.restore', C.L(range(n), C.N), C.L(exp_tr)).list()
                          if C.close(tr, exp_tr, rel=0, abs_=0) else tr.tolist(), sm)
             ctx.bucket('derived-checked')
         npos = int(np.sum(W > 0))
